@@ -1,2 +1,230 @@
-(* C16 - placeholder while the proofs are being written *)
-From LW Require Import Base.Sx Model.Tomo.
+(* C16 — Process tomography and gate fidelity agree with the library's own references.
+   Statements only; every proof is [exact <lemma>]
+   (Proofs/TomoProcP.v, Proofs/TomoProcG.v, Proofs/TomoProcW.v).
+
+   Scalars: any commutative *-ring [o] with an imaginary unit [ii], hh = 1/sqrt 2
+   (2*hh*hh = 1), inverses of units, decidable equality ([TomoRing], Base/QI2.v);
+   instances: Q(sqrt 2)(i) (Base/QI2.v, executable; the witnesses) and the complex
+   numbers over Coq's reals (Base/QI2R.v).  [req] is the list of measurement settings
+   in the order Python's list(set(...)) happened to produce.  [lunit o 2 V] is
+   V^+ V = 1.  "Noiseless data" ([process_ideal]): for every requested (input,
+   setting) the dual-rail outcome frequencies given by the Born rule for the state
+   V rho_in V^+ after the basis change of the setting.
+
+   np.linalg.pinv / np.linalg.solve are oracles [solve N T b]; assumed contract
+   [pinv_contract solve] (Proofs/TomoProcP.v): for every N x N system T x = b that is
+   solved by some x0 and whose matrix has a trivial kernel, [solve N T b] is x0.
+
+   WHAT IS PROVED, for one qubit (n = 1) unless a theorem says "every n":
+     - LI on noiseless data returns choi_from_unitary(V) for EVERY V with V^+V = 1;
+     - gate fidelity is (|tr(U^+ V)|^2 + d)/(d(d+1)) for EVERY target matrix U, one for U = V;
+     - the MLE forward model _p_vec at choi_from_unitary(V) gives the Born probabilities of
+       the data, it is linear in the Choi matrix (every n), the matrix _gradient returns
+       satisfies tr(G D) = d/dt cost(choi + t D) for every direction D (every n), the rows
+       of _a_mat are Hermitian and, for real weights, G is the Hilbert-Schmidt gradient
+       (every n); _tp_proj makes the partial trace the identity (every n);
+     - regression theorems about the definitions of the pinned tree ([*_pinned], findings
+       F9 and F8, repaired in /repo by 00f76fe and daa21e7).
+   OUTSIDE PROOF (oracle-tested by harness/c16.py on generated unitaries only):
+     convergence of the projected-gradient iteration pgdb / _cptp_proj, positivity after
+     the eigh clipping of _cp_proj, the ">= 0.99 fidelity" of the MLE estimate,
+     process_fidelity (scipy sqrtm), two-qubit LI / gate fidelity / forward model (model and
+     code are compared on every run, n = 2 included), and the photonic level (dual-rail
+     frequencies of the circuits = Born probabilities of V rho V^+). *)
+From Coq Require Import ZArith List Bool Arith Lia Permutation Reals QArith Qcanon.
+From LW Require Import Base.Sx Base.Num Base.Sums Base.Mat Base.QI2 Base.QI2R Model.Tomo
+  Proofs.TomoStateP Proofs.TomoProcP Proofs.TomoProcG Proofs.TomoProcW.
+Import ListNotations.
+Open Scope nat_scope.
+
+(* ------------------------------------------------------------------ linear inversion *)
+(* LIProcessTomography.process on the noiseless data of a one-qubit process V returns
+   exactly the matrix choi_from_unitary(V) = vec(V) vec(V)^+ : for EVERY V with V^+ V = 1
+   (complex, non-symmetric, ...), every ordering of the settings. *)
+Theorem C16_li_returns_choi_from_unitary :
+  forall (K : Type) (o : ops K) (ii hh : K), TomoRing o ii hh ->
+  forall (solve : nat -> (nat -> nat -> K) -> (nat -> K) -> nat -> K) (V : nat -> nat -> K) (req : list mstr),
+    pinv_contract (o:=o) solve -> lunit o 2 V -> Permutation req (req_canonical 1 false) ->
+    exists J, li_process o ii solve 1 req (process_ideal o ii hh 1 V (istrings li_inputs 1) req) = Ok J /\
+              meq 4 J (choi_from_unitary o 2 V).
+Proof. exact (fun K o ii hh TR => li_returns_choi_from_unitary (TR:=TR)). Qed.
+Print Assumptions C16_li_returns_choi_from_unitary.
+
+(* the same over the complex numbers (pairs of Coq reals) *)
+Theorem C16_li_returns_choi_from_unitary_complex :
+  forall (solve : nat -> (nat -> nat -> R * R) -> (nat -> R * R) -> nat -> R * R) (V : nat -> nat -> R * R) (req : list mstr),
+    pinv_contract (o:=tCops) solve -> lunit tCops 2 V -> Permutation req (req_canonical 1 false) ->
+    exists J, li_process tCops tC_i solve 1 req (process_ideal tCops tC_i tC_h 1 V (istrings li_inputs 1) req) = Ok J /\
+              meq 4 J (choi_from_unitary tCops 2 V).
+Proof. exact (li_returns_choi_from_unitary (TR:=tC_tomo)). Qed.
+Print Assumptions C16_li_returns_choi_from_unitary_complex.
+
+(* Regression (finding F9): with the row order of the pinned tree,
+   vec(conj(rho_in) (x) P) instead of vec(P (x) conj(rho_in)), LI returned the Choi
+   matrix of the TRANSPOSE of V ... *)
+Theorem C16_li_pinned_returns_choi_of_transpose :
+  forall (K : Type) (o : ops K) (ii hh : K), TomoRing o ii hh ->
+  forall (solve : nat -> (nat -> nat -> K) -> (nat -> K) -> nat -> K) (V : nat -> nat -> K) (req : list mstr),
+    pinv_contract (o:=o) solve -> lunit o 2 V -> Permutation req (req_canonical 1 false) ->
+    exists J, li_process_pinned o ii solve 1 req (process_ideal o ii hh 1 V (istrings li_inputs 1) req) = Ok J /\
+              meq 4 J (choi_from_unitary o 2 (mtrans V)).
+Proof. exact (fun K o ii hh TR => li_pinned_returns_choi_of_transpose (TR:=TR)). Qed.
+Print Assumptions C16_li_pinned_returns_choi_of_transpose.
+
+(* ... which is not the reference: witness Ry with cos = 3/5, sin = 4/5 (real, unitary,
+   not symmetric), in Q(sqrt 2)(i) *)
+Theorem C16_li_eq_reference_pinned_refuted :
+  exists V : nat -> nat -> (Qc * Qc) * (Qc * Qc), unitary qi2ops 2 V /\
+  forall solve req, pinv_contract (o:=qi2ops) solve -> Permutation req (req_canonical 1 false) ->
+  exists J, li_process_pinned qi2ops qi2_i solve 1 req (process_ideal qi2ops qi2_i qi2_h 1 V (istrings li_inputs 1) req) = Ok J /\
+            ~ meq 4 J (choi_from_unitary qi2ops 2 V).
+Proof. exact (ex_intro _ w_Ry (conj w_Ry_unitary li_eq_reference_pinned_refuted_w)). Qed.
+Print Assumptions C16_li_eq_reference_pinned_refuted.
+
+(* ... while for symmetric V (H, CNOT-like: V^T = V) the pinned LI did return the reference *)
+Theorem C16_li_eq_reference_pinned_partial :
+  forall (K : Type) (o : ops K) (ii hh : K), TomoRing o ii hh ->
+  forall (solve : nat -> (nat -> nat -> K) -> (nat -> K) -> nat -> K) (V : nat -> nat -> K) (req : list mstr),
+    pinv_contract (o:=o) solve -> lunit o 2 V -> Permutation req (req_canonical 1 false) ->
+    meq 2 (mtrans V) V ->
+    exists J, li_process_pinned o ii solve 1 req (process_ideal o ii hh 1 V (istrings li_inputs 1) req) = Ok J /\
+              meq 4 J (choi_from_unitary o 2 V).
+Proof. exact (fun K o ii hh TR => li_pinned_symmetric (TR:=TR)). Qed.
+Print Assumptions C16_li_eq_reference_pinned_partial.
+
+(* ------------------------------------------------------------------- gate fidelity *)
+(* GateFidelity.process(U) on the noiseless data of V, before np.real: for EVERY target
+   matrix U (unitary or not) the value is (|tr(U^+ V)|^2 + d) / (d (d + 1)), d = 2.
+   [i3] is 1/3 (the ring need not have characteristic 0: its existence is a hypothesis). *)
+Theorem C16_gate_fidelity_formula :
+  forall (K : Type) (o : ops K) (ii hh : K), TomoRing o ii hh ->
+  forall (solve : nat -> (nat -> nat -> K) -> (nat -> K) -> nat -> K) (U V : nat -> nat -> K) (req : list mstr) (i3 : K),
+    pinv_contract (o:=o) solve -> lunit o 2 V -> Permutation req (req_canonical 1 false) ->
+    kmul o (kadd o (kadd o (k1 o) (k1 o)) (k1 o)) i3 = k1 o ->
+    gf_process o ii solve 1 req (process_ideal o ii hh 1 V (istrings li_inputs 1) req) U
+    = Ok (kmul o (kadd o (kmul o (trace o 2 (mmul o 2 (madj o U) V)) (kconj o (trace o 2 (mmul o 2 (madj o U) V))))
+                         (ofnat o 2))
+                 (kinv o (kmul o (ofnat o 2) (kadd o (ofnat o 2) (k1 o))))).
+Proof. exact (fun K o ii hh TR => gate_fidelity_formula (TR:=TR)). Qed.
+Print Assumptions C16_gate_fidelity_formula.
+
+(* target = the gate itself: fidelity one *)
+Theorem C16_gate_fidelity_same :
+  forall (K : Type) (o : ops K) (ii hh : K), TomoRing o ii hh ->
+  forall (solve : nat -> (nat -> nat -> K) -> (nat -> K) -> nat -> K) (V : nat -> nat -> K) (req : list mstr) (i3 : K),
+    pinv_contract (o:=o) solve -> unitary o 2 V -> Permutation req (req_canonical 1 false) ->
+    kmul o (kadd o (kadd o (k1 o) (k1 o)) (k1 o)) i3 = k1 o ->
+    gf_process o ii solve 1 req (process_ideal o ii hh 1 V (istrings li_inputs 1) req) V = Ok (k1 o).
+Proof. exact (fun K o ii hh TR => gate_fidelity_same (TR:=TR)). Qed.
+Print Assumptions C16_gate_fidelity_same.
+
+(* ------------------------------------------------------------- maximum likelihood *)
+(* _p_vec (before clipping) at the reference choi_from_unitary(V) itself: entry
+   2(3i+j)+s is (tr rho' + (-1)^s <P_j>_rho') / 2 / 4 with rho' = V rho_i V^+, i.e. the
+   Born probability of outcome s of observable j on input i (weight 1/4) - for EVERY
+   matrix V.  So the likelihood of noiseless data is maximal at the reference. *)
+Theorem C16_mle_forward_model :
+  forall (K : Type) (o : ops K) (ii hh : K), TomoRing o ii hh ->
+  forall V : nat -> nat -> K,
+    p_lin o ii 1 (choi_from_unitary o 2 V)
+    = flat_map (fun l => flat_map (fun m => [born_pm (o:=o) (ii:=ii) (hh:=hh) V l m false;
+                                             born_pm (o:=o) (ii:=ii) (hh:=hh) V l m true]) [PX; PY; PZ]) mle_inputs.
+Proof. exact (fun K o ii hh TR => mle_forward_model (TR:=TR)). Qed.
+Print Assumptions C16_mle_forward_model.
+
+(* the forward model is linear in the Choi matrix, every n: p(A + t B) = p(A) + t p(B) *)
+Theorem C16_mle_forward_linear :
+  forall (K : Type) (o : ops K), StarRing o -> forall (ii : K) (n : nat) (A B : nat -> nat -> K) (t : K),
+    p_lin o ii n (fun i j => kadd o (A i j) (kmul o t (B i j)))
+    = map (fun ab => kadd o (fst ab) (kmul o t (snd ab))) (combine (p_lin o ii n A) (p_lin o ii n B)).
+Proof. exact (fun K o SR => p_lin_linear (SR:=SR)). Qed.
+Print Assumptions C16_mle_forward_linear.
+
+(* THE GRADIENT IDENTITY, every n, every Choi matrix, data vector and direction D:
+   with G = _gradient(choi, n_vec), tr(G D) = - sum_k (n_k / p_k(choi)) p_lin(D)_k, the
+   derivative at t = 0 of the cost -sum_k n_k log p_k(choi + t D) (p linear, above; where no
+   p_k is clipped).  tr(mod G) is also what the line search of pgdb uses. *)
+Theorem C16_mle_gradient_is_derivative :
+  forall (K : Type) (o : ops K), StarRing o ->
+  forall (ii : K) (n : nat) (choi : nat -> nat -> K) (n_vec : list K) (D : nat -> nat -> K),
+    trace o (4 ^ n) (mmul o (4 ^ n) (gradient o ii n choi n_vec) D) = dir_deriv o ii n choi n_vec D.
+Proof. exact (fun K o SR => gradient_is_derivative (SR:=SR)). Qed.
+Print Assumptions C16_mle_gradient_is_derivative.
+
+(* every row of _a_mat, reshaped to 4^n x 4^n, is a Hermitian matrix R_k (every n >= 1) *)
+Theorem C16_mle_rows_hermitian :
+  forall (K : Type) (o : ops K) (ii hh : K), TomoRing o ii hh ->
+  forall (n : nat) (row : nat -> K), 1 <= n -> In row (a_rows o ii n) ->
+    hermitian o (4 ^ n) (row_mat (4 ^ n) row).
+Proof. exact (fun K o ii hh TR => a_rows_hermitian (TR:=TR)). Qed.
+Print Assumptions C16_mle_rows_hermitian.
+
+(* hence, for real weights n_k/p_k (real data, Hermitian choi), G is Hermitian and is the
+   Hilbert-Schmidt gradient of the cost: <G, D> = tr(G^+ D) = the directional derivative,
+   for every direction D, every n >= 1 *)
+Theorem C16_mle_gradient_is_hs_gradient :
+  forall (K : Type) (o : ops K) (ii hh : K), TomoRing o ii hh ->
+  forall (n : nat) (choi : nat -> nat -> K) (n_vec : list K) (D : nat -> nat -> K), 1 <= n ->
+    Forall (fun w => kconj o w = w) (grad_weights o (a_rows o ii n) n choi n_vec) ->
+    hs_inner o (4 ^ n) (gradient o ii n choi n_vec) D = dir_deriv o ii n choi n_vec D.
+Proof. exact (fun K o ii hh TR => mle_gradient_is_hs_gradient (TR:=TR)). Qed.
+Print Assumptions C16_mle_gradient_is_hs_gradient.
+
+(* Regression (finding F8): with the A matrix and the conjugated gradient of the pinned
+   tree, on the noiseless data of the S gate at the starting point of pgdb, the matrix
+   _gradient returned was NOT the gradient (its inner product with the Hermitian
+   direction X (x) Y differs from the directional derivative) while its complex conjugate
+   was; the repaired code is covered by the two theorems above.  No [_partial]: the
+   pinned gradient was right only when it happened to be real. *)
+Theorem C16_mle_gradient_pinned_refuted :
+  exists (V D : nat -> nat -> (Qc * Qc) * (Qc * Qc)) nij nv,
+    unitary qi2ops 2 V /\
+    mle_nij qi2ops 1 (req_canonical 1 false)
+            (process_ideal qi2ops qi2_i qi2_h 1 V (istrings mle_inputs 1) (req_canonical 1 false)) = Ok nij /\
+    n_vec_from_data qi2ops 1 nij = Ok nv /\
+    hermitian qi2ops 4 D /\
+    hs_inner qi2ops 4 (gradient_pinned qi2ops qi2_i 1 (mle_start qi2ops 1) nv) D
+      <> dir_deriv_pinned qi2ops qi2_i 1 (mle_start qi2ops 1) nv D /\
+    hs_inner qi2ops 4 (mconj qi2ops (gradient_pinned qi2ops qi2_i 1 (mle_start qi2ops 1) nv)) D
+      = dir_deriv_pinned qi2ops qi2_i 1 (mle_start qi2ops 1) nv D.
+Proof. exact mle_gradient_pinned_refuted_V. Qed.
+Print Assumptions C16_mle_gradient_pinned_refuted.
+
+(* _tp_proj: the partial trace over the second factor of the result is the identity,
+   for EVERY 4^n x 4^n matrix, every n *)
+Theorem C16_tp_proj_spec :
+  forall (K : Type) (o : ops K) (ii hh : K), TomoRing o ii hh ->
+  forall (n : nat) (choi : nat -> nat -> K) (i j : nat), i < 2 ^ n -> j < 2 ^ n ->
+    partial_trace o (2 ^ n) (tp_proj o n choi) i j = mid o i j.
+Proof. exact (fun K o ii hh TR => tp_proj_spec (TR:=TR)). Qed.
+Print Assumptions C16_tp_proj_spec.
+
+(* ---- the hypotheses are satisfiable; statements checked by computation ---- *)
+(* Ry(cos = 3/5, sin = 4/5) is unitary and not symmetric, S is unitary and complex; a
+   permuted setting list; 1/3 exists in Q(sqrt 2)(i) *)
+Example C16_example_hypotheses :
+  unitary qi2ops 2 w_Ry /\ w_Ry 0 1 <> w_Ry 1 0 /\ unitary qi2ops 2 w_S /\
+  Permutation (rev (req_canonical 1 false)) (req_canonical 1 false) /\
+  kmul qi2ops (kadd qi2ops (kadd qi2ops (k1 qi2ops) (k1 qi2ops)) (k1 qi2ops)) (qi2_of (qz 1 3) (qz 0 1) (qz 0 1) (qz 0 1))
+  = k1 qi2ops.
+Proof.
+  split; [exact w_Ry_unitary|]. split; [exact w_Ry_not_symmetric|]. split; [exact w_S_unitary|].
+  split; [apply Permutation_sym, Permutation_rev|exact w_third].
+Qed.
+
+(* LI executed on the noiseless data of Ry with a concrete realisation of pinv (the left
+   inverse of the LI matrix) and the settings in reverse order: the result is
+   choi_from_unitary(Ry), entry by entry *)
+Example C16_example_li_computed :
+  match li_process qi2ops qi2_i w_solve 1 (rev (req_canonical 1 false))
+          (process_ideal qi2ops qi2_i qi2_h 1 w_Ry (istrings li_inputs 1) (rev (req_canonical 1 false))) with
+  | Ok J => forallb (fun i => forallb (fun j => keqb qi2ops (J i j) (choi_from_unitary qi2ops 2 w_Ry i j)) (seq 0 4)) (seq 0 4)
+  | Err _ => false
+  end = true.
+Proof. exact w_li_Ry_computed. Qed.
+
+(* the repaired gradient on the data of the S gate, direction X (x) Y: computed *)
+Example C16_example_gradient_computed :
+  hs_inner qi2ops 4 (gradient qi2ops qi2_i 1 (mle_start qi2ops 1) w_nv) w_D
+  = dir_deriv qi2ops qi2_i 1 (mle_start qi2ops 1) w_nv w_D.
+Proof. exact w_grad_repaired. Qed.
